@@ -3,7 +3,7 @@
 # In the scratch worktree /tmp/seed/<Cxx> (moved to /repo's current HEAD): demo must pass clean, fail with the diff,
 # and the given test files must pass with the diff. Prints a summary line; logs in /tmp/seed/<Cxx>/verify_<X>/.
 P="$1"; X="$2"; shift 2
-WT=/tmp/seed/$P; OUT=$WT/verify_$X; mkdir -p "$OUT"
+WT=${SEED_ROOT:-/tmp/seed}/$P; OUT=$WT/verify_$X; mkdir -p "$OUT"
 cd "$WT" || exit 2
 git reset -q --hard; git checkout -q --detach "$(git -C /repo rev-parse HEAD)" || exit 2
 export PYTHONPATH=$WT
